@@ -580,13 +580,12 @@ def matcher_layout(repo):
     consts3 = [s for s in m_sites if s.kind == 'const' and s.var == iso.var]
     rad_bits = set()
     unspec = set()
+    allb = set()
     for s in consts3:
-        b = bits_of(s.value)
-        if len(b) == 1:
-            rad_bits |= b
-        elif len(b) == 2:
-            unspec |= {max(b)}
-            rad_bits |= {min(b)}
+        allb |= bits_of(s.value)
+    if len(allb) == 3:  # two radical bits below the window, one "isotope unspecified" bit above it; written combined or one by one
+        unspec = {max(allb)}
+        rad_bits = allb - unspec
     if len(rad_bits) != 2 or len(unspec) != 1:
         raise AnalysisError(f'radical/isotope-unspecified constants of the molecule encoder not recognised: '
                             f'{[hex(s.value) for s in consts3]}')
